@@ -180,6 +180,30 @@ def Doc.save (d : Doc) (defaultRdf : Blob) : Doc × List (Nat × Blob) :=
   let c4 := c3.loadAll
   ({ c := c4, parsed := d2.parsed }, c4.parts.filterMap (fun p => p.2.map (fun b => (p.1, b))))
 
+/-- the four standard parts a pretty save loads when they are not parsed yet: content, meta, settings, styles -/
+def stdParts : List Nat := [2, 3, 4, 5]
+
+/-- one turn of the second loop of the pretty branch: a standard part that is not parsed yet is taken from the container,
+    stays parsed and is written pretty; a part the package does not have is skipped (fix C11-F4) -/
+def prettyStd (pp : Blob → Blob) (acc : Doc) (n : Nat) : Doc :=
+  match look acc.parsed n with
+  | some _ => acc
+  | none =>
+    match acc.c.get n with
+    | (some b, c') => { c := c'.set n (pp b), parsed := put acc.parsed n b }
+    | (none, c') => { acc with c := c' }
+
+/-- `Document.save(pretty=True)` (zip or folder): as `save`, but every parsed part is written through the pretty serialiser
+    `pp` (a parameter: `XmlPart.pretty_serialize`, whose tree transformation is the model of C11's `pretty_indent`), and the
+    standard parts not parsed yet are parsed and written pretty too -/
+def Doc.savePretty (pp : Blob → Blob) (d : Doc) (defaultRdf : Blob) : Doc × List (Nat × Blob) :=
+  let d1 := (d.parse nMeta).2
+  let d2 := d1.checkRdf defaultRdf
+  let c3 := d2.parsed.foldl (fun c p => c.set p.1 (pp p.2)) d2.c
+  let d4 := stdParts.foldl (prettyStd pp) { c := c3, parsed := d2.parsed }
+  let c5 := d4.c.loadAll
+  ({ c := c5, parsed := d4.parsed }, c5.parts.filterMap (fun p => p.2.map (fun b => (p.1, b))))
+
 /-- `Document.clone`: a clone of the container that receives the parsed parts; nothing is parsed yet -/
 def Doc.clone (d : Doc) : Doc :=
   { c := d.parsed.foldl (fun c p => c.set p.1 p.2) d.c.clone, parsed := [] }
